@@ -12,8 +12,9 @@ def _load_gen():
     return m
 
 
-def _cargo_check(gen, name, progs, prefix):
-    """Write a crate with the given programs and `cargo check` it. Returns {index: [(code, message)]}, raw_ok."""
+def _cargo_check(gen, name, progs, prefix, build=False):
+    """Write a crate with the given programs and `cargo check` (or, with build=True, `cargo build`: evaluates
+    post-monomorphisation compile-time assertions too) it. Returns {index: [(code, message)]}, raw_ok."""
     d = os.path.join(CORPUS, "gen", name)
     os.makedirs(os.path.join(d, "src"), exist_ok=True)
     with open(os.path.join(d, "Cargo.toml"), "w") as f:
@@ -23,7 +24,7 @@ def _cargo_check(gen, name, progs, prefix):
     with open(os.path.join(d, "src", "lib.rs"), "w") as f:
         f.write(src)
     env = dict(ENV, CARGO_TARGET_DIR=os.path.join(TARGET, "corpus"))
-    r = subprocess.run(["cargo", "check", "--offline", "--message-format=json", "--quiet"], cwd=d, env=env,
+    r = subprocess.run(["cargo", "build" if build else "check", "--offline", "--message-format=json", "--quiet"], cwd=d, env=env,
                        stdout=subprocess.PIPE, stderr=subprocess.PIPE, text=True)
     errs = {}
     other = []
@@ -53,7 +54,9 @@ def _cargo_check(gen, name, progs, prefix):
             other.append(f"{code}: {msg.get('message')}")
         else:
             errs.setdefault(hit, []).append((code, msg.get("message", "")[:200]))
-    if other and not errs and r.returncode != 0:
+    # (when building a single program, an error reported inside the library - a failing compile-time assertion of a
+    # generic function instantiated by the program - is that program's rejection, not a machinery problem)
+    if other and not errs and r.returncode != 0 and not build:
         die(f"corpus crate {name} failed outside the generated functions: {other[:3]}")
     return errs, other, r.returncode
 
@@ -79,6 +82,16 @@ def check_c10(pid, tier, t0):
     gerrs, gother, grc = _cargo_check(gen, "corpus_good", good, "good")
     for i, es in sorted(gerrs.items()):
         viol("good-rejected", good[i], f"well-typed program rejected: {es[0][0]} {es[0][1]} :: {good[i]['body'][:300]}")
+    # programs whose verdict depends on compile-time assertions evaluated at code generation ([mono] templates) are
+    # built (not just checked), each alone, so that the verdict can be attributed
+    mono_built = 0
+    for i, p in enumerate(good):
+        if p["template"].startswith("[mono]") and i not in gerrs:
+            errs, other, rc = _cargo_check(gen, "corpus_solo", [p], "solo", build=True)
+            mono_built += 1
+            if rc != 0:
+                gerrs[i] = errs.get(0, [(None, (other or ["build failed"])[0])])
+                viol("good-rejected", p, f"well-typed program fails to build: {gerrs[i][0]} :: {p['body'][:300]}")
     # BAD programs: every one must be rejected with an error located inside it. Errors of an early compiler phase
     # (name resolution) can hide later ones, so the programs without an error are re-checked in a smaller crate.
     pending = list(range(len(bad)))
@@ -102,7 +115,7 @@ def check_c10(pid, tier, t0):
     accepted = []
     for i in pending:
         # alone in a crate, to rule out masking
-        errs, other, rc = _cargo_check(gen, "corpus_solo", [bad[i]], "solo")
+        errs, other, rc = _cargo_check(gen, "corpus_solo", [bad[i]], "solo", build=True)
         if rc == 0:
             accepted.append(i)
             viol("bad-accepted", bad[i], f"ill-typed program compiles: {bad[i]['body'][:400]}")
@@ -120,7 +133,7 @@ def check_c10(pid, tier, t0):
         "coverage": {
             "evaluations": len(progs),
             "distinct_nontrivial": len(rejected) + (len(good) - len(gerrs)),
-            "rule": "every assignment of each template's tag slots over the alphabets {two or three bases, Rgb/LinRgb/Hsl, angle vs number spellings, map kinds}; a reference typing judgment labels each program; GOOD programs are compiled together (cargo check) and must produce no error, BAD programs must each produce an error whose primary span lies inside the program (re-checked in smaller crates / alone when no error is seen, to rule out masking). non-trivial = BAD program rejected with a located error, or GOOD twin accepted.",
+            "rule": "every assignment of each template's tag slots over the alphabets {two or three bases, Rgb/LinRgb/Hsl, angle vs number spellings, map kinds}; a reference typing judgment labels each program; GOOD programs are compiled together (cargo check) and must produce no error, BAD programs must each produce an error whose primary span lies inside the program (re-checked in smaller crates and finally BUILT alone when no error is seen, to rule out masking and to evaluate compile-time assertions that only fire at code generation). non-trivial = BAD program rejected with a located error, or GOOD twin accepted.",
             "samples": [{"template": p["template"], "tags": p["tags"], "expected": "compiles" if p["good"] else "rejected", "body": p["body"]} for p in (bad[:3] + good[:2])],
             "exhaustive": True,
             "programs": len(progs), "good_programs": len(good), "bad_programs": len(bad), "templates": len(templates),
@@ -142,7 +155,7 @@ def replay_c10(path):
     gen = _load_gen()
     j = json.load(open(path))
     p = j["case"]
-    errs, other, rc = _cargo_check(gen, "corpus_solo", [p], "solo")
+    errs, other, rc = _cargo_check(gen, "corpus_solo", [p], "solo", build=True)
     holds = (rc == 0) == bool(p["good"])
     print(f"REPLAY property=C10 result={'holds' if holds else 'violates'} program_compiles={rc == 0} expected={'compiles' if p['good'] else 'rejected'}")
     return 0 if holds else 1
